@@ -326,7 +326,18 @@ class FuncInfo:
                 b_._orig = a_
         return ast.fix_missing_locations(T(depth).visit(cp))
 
-    def _inline_helper(self, orig, call, depth):
+    def inline_call(self, call, depth=6):
+        """The returned expression of a straight-line repo helper with the (expanded) arguments of `call` substituted - whether or not the helper existed on the
+        pinned tree. For rules about the COMPOSITION of a caller and its helper (which of the two computes a part may change in a refactoring). None when
+        the callee is not a straight-line helper."""
+        c2 = _copy(call)
+        c2.args = [self.expand(a) for a in call.args]
+        for k_, orig_k in zip(c2.keywords, call.keywords):
+            k_.value = self.expand(orig_k.value)
+        c2._orig = call
+        return self._inline_helper(call, c2, depth, force=True)
+
+    def _inline_helper(self, orig, call, depth, force=False):
         """`helper(args)` -> the helper's returned expression with the parameters replaced by the arguments, when the helper did not exist on the pinned
         tree (obligations/known_functions.json) and is straight-line code (`name = expr` statements and one final return). Structural rules then see a
         function and the expression-level helpers extracted from it as one construct. None when not applicable."""
@@ -339,7 +350,7 @@ class FuncInfo:
             tg = repo.resolve_call(self, src, virtual=False)
         except Exception:
             return None
-        if len(tg) != 1 or tg[0].where in known_functions() or tg[0].node is self.node or tg[0].vararg or tg[0].kwarg:
+        if len(tg) != 1 or (tg[0].where in known_functions() and not force) or tg[0].node is self.node or tg[0].vararg or tg[0].kwarg:
             return None
         t = tg[0]
         body = t.body()
@@ -348,7 +359,11 @@ class FuncInfo:
         for s_ in body[:-1]:
             if not (isinstance(s_, ast.Assign) and len(s_.targets) == 1 and isinstance(s_.targets[0], ast.Name)):
                 return None
-        if any(isinstance(x, (ast.Lambda, ast.ListComp, ast.DictComp, ast.SetComp, ast.GeneratorExp, ast.Yield, ast.YieldFrom, ast.Await, ast.NamedExpr)) for x in ast.walk(t.node)):
+        if any(isinstance(x, (ast.Lambda, ast.Yield, ast.YieldFrom, ast.Await, ast.NamedExpr)) for x in ast.walk(t.node)):
+            return None
+        # comprehensions are fine unless an argument mentions a name that a comprehension of the helper binds (capture)
+        comp_names = {n.id for x in ast.walk(t.node) if isinstance(x, ast.comprehension) for n in ast.walk(x.target) if isinstance(n, ast.Name)}
+        if comp_names and any(isinstance(n, ast.Name) and n.id in comp_names for a_ in list(call.args) + [k.value for k in call.keywords] for n in ast.walk(a_)):
             return None
         if t.is_method:
             rcv = call.func.value if isinstance(call.func, ast.Attribute) else None
